@@ -50,7 +50,7 @@ CASES_QUICK = [("below", 1, 1), ("below", 2, 1), ("below", 3, 1), ("below", 5, 1
                ("bernoulli_exp1", 0, 1), ("bernoulli_exp1", 1, 1), ("bernoulli_exp1", 1, 2), ("bernoulli_exp1", 2, 3),
                ("bernoulli_exp", 1, 2), ("bernoulli_exp", 3, 2), ("bernoulli_exp", 2, 1), ("bernoulli_exp", 5, 3),
                ("geometric_exp", 1, 1), ("geometric_exp", 1, 2), ("geometric_exp", 2, 1), ("geometric_exp", 3, 2), ("geometric_exp", 0, 1),
-               ("laplace", 1, 1), ("laplace", 1, 2), ("laplace", 2, 1), ("laplace", 3, 2), ("laplace", 0, 1),
+               ("laplace", 1, 1), ("laplace", 1, 2), ("laplace", 2, 1), ("laplace", 3, 2), ("laplace", 0, 1), ("laplace", 16, 1),
                ("gaussian", 1, 1), ("gaussian", 1, 2), ("gaussian", 3, 2), ("gaussian", 0, 1)]
 
 
@@ -83,6 +83,7 @@ def run(chk):
     mass = {}
     laplace11 = []
     laplace21 = []
+    laplace161 = []
     for l in res.replay:
         v = json.loads(l)
         key = (v["layer"], v["n"], v["d"])
@@ -94,6 +95,8 @@ def run(chk):
             laplace11.append(v)
         if key == ("laplace", 2, 1) and len(laplace21) < 4000:
             laplace21.append(v)
+        if key == ("laplace", 16, 1):
+            laplace161.append(v)
     report = []
     eps = Decimal(10) ** -45
     for key in cases:
@@ -143,6 +146,17 @@ def run(chk):
                     noise.append({"t": {"kind": "L1BoundSum", "maxl": limbs(mx), "max_s": str(mx), "len": 2, "field": fld}, "en": 0, "ed": 1,
                                   "enl": limbs(mx), "edl": [1], "en_s": str(mx), "ed_s": "1", "sa": 2, "sb": 1,
                                   "agg": [(3 * c + rep) % 5 for c in range(2)], "tapes": tapes})
+        # noise of magnitude >= p: over GF(17) with scale 16 (Histogram, epsilon = 1/8) the enumerated Laplace tapes reach |x| = 17..31,
+        # so the floor-mod projection of large negative and positive noise into the field is exercised
+        big_neg = [v for v in laplace161 if v["out"] <= -17]
+        big_pos = [v for v in laplace161 if v["out"] >= 17]
+        mid = [v for v in laplace161 if abs(v["out"]) < 17]
+        if big_neg and big_pos and mid:
+            for rep in range(12 if thorough else 6):
+                pick = [big_neg[(rep * 7) % len(big_neg)], big_pos[(rep * 5) % len(big_pos)], mid[(rep * 11) % len(mid)]]
+                noise.append({"t": {"kind": "Histogram", "len": 3, "tiny": True}, "en": 1, "ed": 8, "agg": [(3 * c + rep) % 5 for c in range(3)],
+                              "tapes": [x["tape"] for x in pick]})
+            chk.notes.append("tiny-field noise cases: %d enumerated Laplace(16) tapes with outcome <= -17, %d with outcome >= 17" % (len(big_neg), len(big_pos)))
         nf = os.path.join(vlib.WORK, "c15_noise.ndjson")
         vlib.write_lines(nf, [json.dumps(x) for x in noise])
         r2 = vlib.run_tlc("MC_C15", "MC_C15_noise", workers=4, timeout=900, env={"C15_NOISE": nf, "C15_CASES": ""}, tag="c15n")
